@@ -680,6 +680,46 @@ def main():
             ck.violation("HTTPRequest.Do with a breaker of %d registered for the %s: server saw %s requests, %s throttled with status 430" % (lim, key, r.get("hits"), r.get("throttled")),
                          {"case": hc, "impl": r}, tag="http")
 
+    # ... and keeps consulting the registry: histories in which breakers are registered for the host or for one exact URI, replaced,
+    # removed, and requests go to several URIs of the host. Specification: a request is guarded by the entry for its exact URI if there
+    # is one, else by the entry for its host (the entries as they are NOW), and each breaker admits `limit` requests (interval 1 h).
+    def http_hist(rng):
+        paths = ["/p", "/q?x=1", ""]
+        steps = []
+        for _ in range(rng.randint(6, 16)):
+            r = rng.random()
+            if r < 0.25:
+                steps.append({"t": "set", "key": rng.choice(["host", "host", "uri:" + rng.choice(paths)]), "limit": rng.randint(1, 3)})
+            elif r < 0.33:
+                steps.append({"t": "del", "key": rng.choice(["host", "uri:" + rng.choice(paths)])})
+            else:
+                steps.append({"t": "get", "path": rng.choice(paths)})
+        return {"kind": "c20.http_hist", "steps": steps}
+    def http_spec(steps):
+        reg, outs = {}, []
+        for st in steps:
+            if st["t"] == "set":
+                reg[st["key"]] = [st["limit"], 0]; outs.append("set")        # a fresh breaker object
+            elif st["t"] == "del":
+                reg.pop(st["key"], None); outs.append("del")
+            else:
+                b = reg.get("uri:" + st["path"]) or reg.get("host")
+                if b is None: outs.append("ok")
+                elif b[1] < b[0]: b[1] += 1; outs.append("ok")
+                else: outs.append("throttled")
+        return outs
+    directed = [{"kind": "c20.http_hist", "steps": [{"t": "set", "key": "host", "limit": 3}, {"t": "get", "path": "/p"}, {"t": "set", "key": "host", "limit": 1},
+                                                   {"t": "get", "path": "/p"}, {"t": "get", "path": "/p"}, {"t": "get", "path": "/q?x=1"}, {"t": "del", "key": "host"}, {"t": "get", "path": "/p"}]}]
+    hh = directed + [http_hist(ck.rng) for _ in range(40 if not ck.thorough else 600)]
+    for hc, r in zip(hh, run_cases(drv, hh)):
+        ck.count(hc)
+        want = http_spec(hc["steps"])
+        got = (r or {}).get("outs")
+        if got != want:
+            k = next((k for k in range(min(len(got or []), len(want))) if got[k] != want[k]), 0)
+            ck.violation("HTTPRequest.Do and the registry HTTPBreakers: step %d %s answered %s, the entry in force (exact URI, else host) says %s; steps: %s" % (
+                k, canon(hc["steps"][k]), (got or [None] * (k + 1))[k], want[k], canon(hc["steps"][: k + 1])[:400]), {"case": hc, "impl": r, "spec": want}, tag="http-hist")
+
     # ------------------------------------------------------------------ (5) known findings: replay each witness on the real code
     for f in kf:
         w = f["witness"]
